@@ -115,6 +115,13 @@ def session(root, version, calls, use_cb):
         mem = joblib.Memory(os.path.join(root, "cache"), verbose=0)
         c = mem.cache(vmod.f, cache_validation_callback=expires_after(days=1) if use_cb else None)
         out = []
+        # frozen-state check first: every visible output.pkl must load *before* any recovery call
+        for dp, dn, fn in os.walk(os.path.join(root, "cache")):
+            if "output.pkl" in fn:
+                try:
+                    joblib.load(os.path.join(dp, "output.pkl"))
+                except BaseException as e:
+                    out.append(("LOAD-FROZEN", ("EXC", type(e).__name__, dp[-30:])))
         for a in calls:
             try:
                 out.append((a, c(*a)))
@@ -163,7 +170,7 @@ def scenario(seed, workload, die_at, torn, use_cb):
         res, _ = fork_run(lambda: session(root, *verify, use_cb))
         bad = [r for r in res if isinstance(r[1], tuple) and r[1] and r[1][0] == "EXC"]
         ver = verify[0]
-        bad += [r for r in res if r[0] != "LOAD" and not (isinstance(r[1], tuple) and r[1][0] == "EXC") and r[1][0] != "v%d" % ver]
+        bad += [r for r in res if r[0] not in ("LOAD", "LOAD-FROZEN") and not (isinstance(r[1], tuple) and r[1][0] == "EXC") and r[1][0] != "v%d" % ver]
         return n_points, st, bad
     finally:
         shutil.rmtree(root, ignore_errors=True)
